@@ -70,7 +70,7 @@ def step (st : St) (args : List String) : St × String :=
           | none => some [],
         leaderRefresh,
         leaderRequest := fun t p =>
-          match lq.find? (·.1 == s!"{t}.{p}") with
+          match lq.reverse.find? (·.1 == s!"{t}.{p}") with
           | some (_, l) => l
           | none => leaderRefresh t p,
         answer := fun b reqs =>
